@@ -509,6 +509,104 @@ def r10(F, R):
 
 
 
+MOVE_OUT = ("mem::replace", "mem::take", "mem::swap", "Option::<T>::take", "Option::take")
+
+
+def moved_out_state(F, is_state_field):
+    """(body, bb, term, field name) for every call that moves a persistent state field out of `self` (mem::replace / take / swap on `&mut self.<f>`)."""
+    out = []
+    for b in sorted(F.bodies.values(), key=lambda x: x.path):
+        if b.kind != "method" or b.arg_count < 1 or not b.local_ty(1).startswith("&mut "):
+            continue
+        for bb, t in b.calls():
+            p_ = strip_generics(t["callee"].get("path", ""))
+            if not p_.endswith(MOVE_OUT) or not t["args"]:
+                continue
+            for a in t["args"][:2]:
+                v = b.value(a)
+                if v[0] == "ref" and v[1][0] == "field":
+                    base = v[1][1]
+                    while base[0] in ("deref", "ref"):
+                        base = base[1]
+                    if base[0] == "arg" and base[1] == 1 and is_state_field(b, v[1][2], a):
+                        out.append((b, bb, t, v[1][2]))
+    return out
+
+
+def _restore_blocks(b, field):
+    out = set()
+    for bi, blk in enumerate(b.blocks):
+        for st in blk["stmts"]:
+            if st["k"] == "assign" and st["pl"]["l"] == 1 and st["pl"]["p"] and isinstance(st["pl"]["p"][-1], dict) and st["pl"]["p"][-1].get("n") == field:
+                out.add(bi)
+        t = blk["term"]
+        if t["k"] == "call" and t["dest"]["l"] == 1 and t["dest"]["p"] and isinstance(t["dest"]["p"][-1], dict) and t["dest"]["p"][-1].get("n") == field:
+            out.add(bi)
+    return out
+
+
+def _err_exits(b):
+    """Blocks where the function's error result is produced: the `?` residual conversion, or `_0 = Err(..)`."""
+    out = set()
+    for bi, blk in enumerate(b.blocks):
+        if blk["cleanup"]:
+            continue
+        t = blk["term"]
+        if t["k"] == "call" and strip_generics(t["callee"].get("path", "")).endswith("FromResidual::from_residual") and t["dest"]["l"] == 0:
+            out.add(bi)
+        for st in blk["stmts"]:
+            if st["k"] == "assign" and st["pl"]["l"] == 0 and not st["pl"]["p"] and st["rv"]["k"] == "agg" and st["rv"].get("variant") == "Err":
+                out.add(bi)
+    return out
+
+
+def _r11_eval(F, is_state_field):
+    res = []
+    for (b, bb, t, field) in moved_out_state(F, is_state_field):
+        restores = _restore_blocks(b, field)
+        errs = _err_exits(b)
+        nxt = t.get("target")
+        reach = b.reach_from(nxt, avoid=sorted(restores)) if nxt is not None else set()
+        lost = sorted(e for e in errs if e in reach)
+        res.append((b, bb, t, field, lost, len(errs)))
+    return res
+
+
+def r11(F, R):
+    R.rule("C05-R11", "an error leaves the chain where it was: a function that moves the persistent state out of `self` (mem::replace / take / swap on "
+                      "`&mut self.state`, leaving a placeholder) puts a state back on every path to an error exit (`?` or `Err(..)`); otherwise the next "
+                      "draw after a reported error starts from the placeholder, not from the last valid point")
+
+    def is_state(b, name, a):
+        ty = ""
+        v = b.value(a)
+        for x in (F.adts.get(b.parent.get("self_adt") or "", {}).get("variants") or [{}])[0].get("fields", []):
+            if x["name"] == name:
+                ty = x["ty"]
+        return ty.startswith("dynamics::state::State<")
+    n = 0
+    for (b, bb, t, field, lost, nerr) in _r11_eval(F, is_state):
+        n += 1
+        site = "%s @%s" % (b.path, loc(t["span"]))
+        key = "%s:%s-moved-out" % (b.path, field)
+        if lost:
+            R.bad("C05-R11", key, site, "self.%s is moved out and %d of %d error exits are reachable without storing a state back (first at %s)" % (
+                field, len(lost), nerr, loc(b.blocks[lost[0]]["term"].get("span") or b.span)))
+        else:
+            R.ok("C05-R11", key, site, "self.%s is moved out; all %d error exits are behind a store back" % (field, nerr))
+    if n == 0:
+        R.ok("C05-R11", "scan", "library crates", "no function moves a persistent State field out of self (the state is only copied / assigned)")
+    # positive control: the matcher reports the planted construct
+    P = K.positive_facts()
+    pr = _r11_eval(P, lambda b, name, a: name == "state")
+    if any(lost for (_b, _bb, _t, _f, lost, _n) in pr if _b.path.endswith("c05_state_moved_out")) and \
+       any(not lost for (_b, _bb, _t, _f, lost, _n) in pr if _b.path.endswith("c05_state_moved_out_restored")):
+        R.ok("C05-R11", "positive-control", "fixtures/positive", "the planted move-out without restore is reported, the one with restore is not")
+    else:
+        R.bad("C05-R11", "positive-control", "fixtures/positive", "matcher failed on the planted mem::replace(&mut self.state, ..) constructs: %s" % [
+            (x[0].path, x[3], x[4]) for x in pr])
+
+
 def run(F, R, config="all"):
     r1(F, R)
     r2(F, R)
@@ -523,6 +621,7 @@ def run(F, R, config="all"):
     # otherwise the draw is cut short and `assert!(steps_taken >= num_base_steps)` panics
     from . import c18
     r10(F, R)
+    r11(F, R)
     K.borrow_rule(R, lambda sub: c18.r4(F, sub), "C05-R9", "MCLMC step-size retry after a faulted step: halve on push, double on pop, unwind every finished level "
                   "(decided by the C18-R4 analysis of mclmc_kernel)", only_rules={"C18-R4"})
     R.assume("user-supplied Math implementations may return any error at any call; is_recoverable() is the documented classifier")
